@@ -19,14 +19,15 @@ TECHNIQUE = "exhaustive/sampled enumeration of a finite rule table against the r
 RULE = ("context flags in the 7 non-empty subsets of {control,dagger,power} (plus the empty one), given "
         "by decorator or by `with` block; callee declared with each of the 8 subsets; argument kinds "
         "qubit / classical / mixed / qubit array; placements statement, if-condition, while-condition, "
-        "nested argument, return value, assignment, subscripted argument, barrier, state_result. "
+        "nested argument (alone, before and after a qubit argument of the enclosing call, two levels "
+        "deep), return value, assignment, subscripted argument, barrier, state_result. "
         "distinct = cells of that product")
 FLOORS = {"cells_checked": 300, "expected_reject": 50, "expected_accept": 50, "metadata_read": 50}
 
 FLAGS = ["control", "dagger", "power"]
 SUBSETS = [tuple(f for f, b in zip(FLAGS, bits) if b) for bits in itertools.product([0, 1], repeat=3)]
-PLACEMENTS = ["stmt", "if_cond", "while_cond", "nested", "return", "assign", "subscript", "barrier",
-              "state_result"]
+PLACEMENTS = ["stmt", "if_cond", "while_cond", "nested", "nested_after_qubit", "nested_before_qubit",
+              "nested_twice", "return", "assign", "subscript", "barrier", "state_result"]
 ARGKINDS = ["qubit", "classical", "mixed", "array"]
 FORMS = ["decorator", "with"]
 
@@ -83,7 +84,11 @@ def module(form, C, F, pl, ak):
              f"@guppy.declare{d}\ndef fb(q: qubit) -> bool: ...\n\n"
              f"@guppy.declare{d}\ndef fi(q: qubit) -> int: ...\n\n"
              # a classical consumer that is fine in every context
-             "@guppy.declare(control=True, dagger=True, power=True)\ndef sink(n: int) -> None: ...\n\n")
+             "@guppy.declare(control=True, dagger=True, power=True)\ndef sink(n: int) -> None: ...\n\n"
+             # fully flagged consumers of a qubit and a classical value, in both argument orders
+             "@guppy.declare(control=True, dagger=True, power=True)\ndef ok_qn(q: qubit, n: int) -> None: ...\n\n"
+             "@guppy.declare(control=True, dagger=True, power=True)\ndef ok_nq(n: int, q: qubit) -> None: ...\n\n"
+             "@guppy.declare(control=True, dagger=True, power=True)\ndef ok_nn(n: int, m: int) -> int: ...\n\n")
     call = {"qubit": "fq(q)", "classical": "fc(n)", "mixed": "fm(q, n)", "array": "fa(qs)"}[ak]
     ret = "None"
     if pl == "stmt":
@@ -94,6 +99,12 @@ def module(form, C, F, pl, ak):
         body = ["while fb(q):", "    pass"]
     elif pl == "nested":
         body = ["sink(fi(q))"]
+    elif pl == "nested_after_qubit":
+        body = ["ok_qn(q, fi(d))"]
+    elif pl == "nested_before_qubit":
+        body = ["ok_nq(fi(d), q)"]
+    elif pl == "nested_twice":
+        body = ["sink(ok_nn(n, ok_nn(n, fi(q))))"]
     elif pl == "return":
         body = ["return fb(q)"]
         ret = "bool"
@@ -105,7 +116,7 @@ def module(form, C, F, pl, ak):
         body = ["barrier(q)"]
     else:
         body = ['state_result("t", q)']
-    params = "q: qubit, c: qubit, n: int, qs: array[qubit, 2]"
+    params = "q: qubit, c: qubit, d: qubit, n: int, qs: array[qubit, 2]"
     if form == "decorator":
         src = f"@guppy{kw(C)}\ndef test({params}) -> {ret}:\n" + "".join(f"    {l}\n" for l in body)
     else:
